@@ -163,7 +163,8 @@ func (s *Set) getTemplate(templatePath string, cacheAfterParsing bool, loading .
 	for _, extension := range s.extensions {
 		canonicalPath := path.Clean(templatePath + extension) // (an extension may begin with a slash)
 		if !s.developmentMode && canonicalPath != templatePath {
-			if t := s.cache.Get(canonicalPath); t != nil {
+			// entries are also stored under requested names: only the entry of this very file counts
+			if t := s.cache.Get(canonicalPath); t != nil && t.Name == canonicalPath {
 				if cacheAfterParsing {
 					// found under another spelling (path + extension): remember it under the requested
 					// path too, so that entries cached later cannot change what this name returns
